@@ -155,8 +155,8 @@ func vC12_onResume(m *passivationManager) {
 }
 
 // 0 message handled, 1 PausePassivation, 2 ResumePassivation, 3 suspend, 4 reinstate, 5 manager wakes (timer/trigger)
-func vC12_event(pid *PID, m *passivationManager) {
-	switch vChoose("event", 6) {
+func vC12_event(pid *PID, m *passivationManager, ev int) {
+	switch ev {
 	case 0:
 		vC12_handle(pid)
 		vCover("handled")
@@ -276,7 +276,7 @@ func vC12_timeStep() {
 	// arbitrary manager state for this actor
 	e.paused = vNondetBool("entryPaused")
 	e.deadline = time.Unix(0, vNondetInt64("deadline"))
-	switch vChoose("entry", 3) {
+	switch vCase("entry") {
 	case 0: // unknown to the manager
 		delete(m.entries, pid.ID())
 		m.queue = m.queue[:0]
@@ -291,7 +291,7 @@ func vC12_timeStep() {
 	}
 	now := time.Now().UnixNano()
 	vAssume(vC12_timeInv(pid, m, now))
-	vC12_event(pid, m)
+	vC12_event(pid, m, vCase("event"))
 	if vC12_stops == 0 {
 		vAssert(vC12_timeInv(pid, m, time.Now().UnixNano()), "time-based: every event preserves the invariant")
 	}
@@ -303,7 +303,7 @@ func vC12_timeHistory(K int) {
 	pid, m, es := vC12_timeSetup()
 	for k := 0; k < K; k++ {
 		if vC12_stops == 0 { // a passivated actor is dead: the history ends there
-			vC12_event(pid, m)
+			vC12_event(pid, m, vChoose("event", 6))
 		}
 	}
 	vC12_after(pid, m, es)
@@ -396,7 +396,7 @@ func vC12_countStep() {
 	pid.processedCount.Store(C)
 	e.baseline = vNondetInt64("baseline")
 	e.paused, e.pending, e.enqueued = vNondetBool("entryPaused"), vNondetBool("pending"), vNondetBool("enqueued")
-	switch vChoose("entry", 3) {
+	switch vCase("entry") {
 	case 0:
 		delete(m.entries, pid.ID())
 		vCover("pre-unregistered")
@@ -408,7 +408,7 @@ func vC12_countStep() {
 	}
 	vC12_known = true
 	vAssume(vC12_countInv(pid, m))
-	vC12_event(pid, m)
+	vC12_event(pid, m, vCase("event"))
 	if vC12_stops == 0 {
 		vAssert(vC12_countInv(pid, m), "count-based: every event preserves the invariant")
 	}
@@ -424,7 +424,7 @@ func vC12_countHistory(K int) {
 	vC12_known = true
 	for k := 0; k < K; k++ {
 		if vC12_stops == 0 {
-			vC12_event(pid, m)
+			vC12_event(pid, m, vChoose("event", 6))
 		}
 	}
 	vC12_after(pid, m, es)
@@ -461,7 +461,7 @@ func vC12_longlived() {
 	pid, m, es := vC12_newPID(passivation.NewLongLivedStrategy())
 	vAssert(len(m.entries) == 0, "a long-lived actor is not registered with the passivation manager")
 	for k := 0; k < 3; k++ {
-		vC12_event(pid, m)
+		vC12_event(pid, m, vChoose("event", 6))
 	}
 	vAssert(!pid.tryPassivation("forced"), "tryPassivation refuses a long-lived actor")
 	vAssert(vC12_stops == 0 && es.passivated == 0, "a long-lived actor is never stopped by passivation")
